@@ -2,5 +2,5 @@
 # usage: tools_seed.sh <worktree> <check ids...> : run checks against a mutated worktree (quick tier)
 WT=$1; shift
 for p in "$@"; do
-  SMOOTHMATH_REPO=$WT ./check $p --tier quick 2>&1 | grep -E "^(OK|VIOLATION|INFRA|  )" | head -3 | cut -c1-260
+  VERIF_EVIDENCE_DIR=/tmp/seeded_evidence SMOOTHMATH_REPO=$WT ./check $p --tier quick 2>&1 | grep -E "^(OK|VIOLATION|INFRA|  )" | head -3 | cut -c1-260
 done
